@@ -28,6 +28,12 @@ def volume_layout(rng, w, uid, profile="mixed"):
     if R + b"/vol1" in vols and rng.random() < 0.3:
         w.mount(R + b"/vol1/nest")
         vols.append(R + b"/vol1/nest")
+    if rng.random() < 0.12:
+        # a volume whose mount point has ".Trash-$uid" (and "files", "info") among its components: an image mounted inside
+        # somebody's trash directory.  What a path is called decides nothing; only where $topdir/.Trash and .Trash-$uid ARE
+        odd = R + b"/media/" + uid_dir(uid) + b"/files/image"
+        w.mount(odd)
+        vols.append(odd)
     for v in vols:
         st = rng.choice(["absent", "absent", "sticky", "sticky", "nonsticky", "nonsticky", "link-sticky", "link-nonsticky", "file"])
         t = v + b"/" + DOT_T
@@ -288,6 +294,20 @@ def gen_put_world(rng, profile="mixed"):
             args = [a1, a2] + args[:2]
             meta = [{"class": "entry", "kind": "file", "spelling": "via-link-parent", "entry": tgt + b"/inside"},
                     {"class": "entry", "kind": "link-dir", "spelling": "abs", "entry": lk}] + meta[:2]
+    if profile == "links" and rng.random() < 0.1 and home + b"/work/bld" not in w.nodes and home + b"/work/latest" not in w.nodes:
+        # a directory, then a link that lives OUTSIDE it and points INTO it (`trash-put build latest`): the second argument
+        # is the link, wherever it leads and whatever became of that
+        w.file(home + b"/work/bld/out.txt", b"build output")
+        w.file(home + b"/work/bld/sub/more", b"more")
+        w.link(home + b"/work/latest", rng.choice([b"bld/out.txt", home + b"/work/bld/sub", b"bld/never-existed"]))
+        rel = cwd == home + b"/work"
+        if cwd == home and rng.random() < 0.5:
+            a1, a2 = b"work/bld", b"work/latest"
+        else:
+            a1, a2 = home + b"/work/bld", home + b"/work/latest"
+        args = [a1 + rng.choice([b"", b"/"]), a2] + args[:1]
+        meta = [{"class": "entry", "kind": "tree", "spelling": "abs", "entry": home + b"/work/bld"},
+                {"class": "entry", "kind": "link-file", "spelling": "abs", "entry": home + b"/work/latest"}] + meta[:1]
     # arguments must designate unrelated entries: drop a mount-point argument when another entry lives below it
     keep = []
     for a, mt in zip(args, meta):
@@ -375,6 +395,13 @@ def gen_put_world(rng, profile="mixed"):
                         w.file(lex + b"/files/" + nm, b"decoy payload: nobody named this directory")
                         w.file(lex + b"/info/" + nm + b".trashinfo", b"[Trash Info]\nPath=/decoy\nDeletionDate=2020-01-01T00:00:00\n", 0o600)
                         w.file(lex + b"/files/" + nm + b"_1/inner", b"decoy dir")
+    if rng.random() < 0.2:
+        # what stands in the way of a trash directory (and the volume's top directory) belongs to a uid/gid without a passwd
+        # or group entry: whoever looks the owner up, for a diagnostic say, finds no name
+        for v in vols:
+            for q in (v, v + b"/" + DOT_T, v + b"/" + uid_dir(uid)):
+                if q in w.nodes and q != R and rng.random() < 0.6:
+                    w.nodes[q]["owner"] = 54321
     if (opts.get("homeFallback") and env.get("TRASH_ENABLE_HOME_FALLBACK") == b"1") or \
             any(m_.get("spelling") == "symlink-dotdot" for m_ in meta):
         # where the move may be a copy (home fallback; the lexical-'..' finding, which trashes across volumes) a named pipe
@@ -394,13 +421,13 @@ def gen_put_world(rng, profile="mixed"):
 # worlds with populated trash directories (list / restore / empty / rm)
 # ---------------------------------------------------------------------------------------------------
 
-DATES = ["9999-12-31T23:59:59", "9999-12-25T00:00:00", "2000-01-01T00:00:00\x0c", "2000-01-01T00:00:00\x1d", "2000-01-01T00:00:00\x0b", "2020-01-01T00:00:00", "2024-02-29T23:59:59", "2024-03-01T12:00:00", "2024-03-01T12:00:01", "2024-03-02T12:00:00",
+DATES = ["2001-01-01 00:00:00", "2001-01-01_00:00:00", "2001-W01-1T00:00:00", "20010101T000000.000", "9999-12-31T23:59:59", "9999-12-25T00:00:00", "2000-01-01T00:00:00\x0c", "2000-01-01T00:00:00\x1d", "2000-01-01T00:00:00\x0b", "2020-01-01T00:00:00", "2024-02-29T23:59:59", "2024-03-01T12:00:00", "2024-03-01T12:00:01", "2024-03-02T12:00:00",
          "2023-12-31T00:00:00", "1999-12-31T23:59:59", "2030-06-15T08:30:00", "2024-3-1T9:5:7", "2024-03-01t12:00:00",
          "2001-01-01T12:00:00+0100", "2001-01-01T12:00:00Z", "2001-01-01T12:00:00-05:00", "2001-01-01T12:00:00 UTC"]
-BAD_DATES = ["2024-02-30T00:00:00", "yesterday", "", "2024-03-01", "2024-03-01T12:00:60", "2024-03-01T12:00:00 ", "2002-02-02T02:02:02+0000", "2002-02-02T02:02:02.000"]
+BAD_DATES = ["2001-01-01 00:00:00", "2001-01-01_00:00:00", "2001-W01-1T00:00:00", "20010101T000000.000", "2001-01-01T00:00+01", "2024-02-30T00:00:00", "yesterday", "", "2024-03-01", "2024-03-01T12:00:60", "2024-03-01T12:00:00 ", "2002-02-02T02:02:02+0000", "2002-02-02T02:02:02.000"]
 MALFORMED = ["non-trashinfo", "empty", "truncated", "binary", "non-utf8", "no-path", "no-date", "bad-date", "info-only",
-             "orphan", "long-orphan", "odd-stem", "info-is-dir", "info-dangling-link", "dup-keys-crlf", "double-suffix", "info-link-outside", "info-link-sibling"]
-ORIGIN_NAMES = [b"report.txt", b"a b", b"foo", b"foobar", b"foo.o", b"FOO", b"notes.trashinfo", b"notes\x0cdraft", b"notes\xe2\x80\xa8final", b"caf\xc3\xa9", b"x%y", b"new\nline", b"-dash", b"d1",
+             "orphan", "long-orphan", "odd-stem", "info-is-dir", "info-dangling-link", "dup-keys-crlf", "double-suffix", "info-link-outside", "info-link-sibling", "info-link-loop", "info-link-through-file"]
+ORIGIN_NAMES = [b"report.txt", b"a b", b"~", b"foo", b"foobar", b"foo.o", b"FOO", b"notes.trashinfo", b"notes\x0cdraft", b"notes\xe2\x80\xa8final", b"caf\xc3\xa9", b"x%y", b"new\nline", b"-dash", b"d1",
                 b"notes", b"\xff\xfe", b"q?", b"[b]", b"*star", b"...", b"....", b"cafe\xcc\x81"]
 
 
@@ -516,6 +543,13 @@ def add_malformed(rng, w, tdir, kind, i, good_names=None):
         w.file(tdir + b"/files/" + n, b"p")
     elif kind == "info-dangling-link":
         w.link(info + n + b".trashinfo", b"nowhere")
+    elif kind == "info-link-loop":
+        w.link(info + n + b".trashinfo", rng.choice([n + b".trashinfo", info + n + b".trashinfo"]))      # a link to itself: ELOOP
+    elif kind == "info-link-through-file":
+        good = [x for x in (good_names or []) if info + x + b".trashinfo" in w.nodes and w.nodes[info + x + b".trashinfo"]["k"] == "f"]
+        w.link(info + n + b".trashinfo", (rng.choice(good) + b".trashinfo/x") if good else b"../files/../info/README/x")   # ENOTDIR
+        if not good:
+            w.file(info + b"README", b"junk")
     elif kind == "info-link-outside":
         # the info file is a symbolic link to a well-formed .trashinfo kept elsewhere, next to a files/ directory of its own:
         # purging the entry unlinks the link and this trash directory's payload, nothing where the link leads
@@ -600,6 +634,10 @@ def gen_trash_world(rng, cmd, profile="mixed", real_clock=None):
     # ages relative to the moment of the run ("@AGE:<seconds>@", filled in when the world is evaluated, see readcheck),
     # at least three hours away from every whole number of days
     real_clock = cmd == "empty" and ((rng.random() < 0.15) if real_clock is None else real_clock)
+    dst_world = cmd == "empty" and not real_clock and rng.random() < 0.12
+    dst_dates = ["2024-10-25T12:00:00", "2024-10-25T12:00:01", "2024-10-25T12:30:00", "2024-10-25T11:30:00", "2024-03-25T11:30:00",
+                 "2024-03-25T11:59:59", "2024-03-25T12:00:00", "2024-10-29T01:30:00", "2024-10-29T00:45:00", "2024-03-05T12:00:00",
+                 "2024-03-05T11:15:00", "2024-03-05T12:40:00"]
     rc_days = rng.choice([0, 1, 2, 7, 30])
     # (most ages sit three hours on either side of the limit the run will use: a clock read in the wrong zone moves them across)
     age_dates = ["@AGE:%d@" % -(k * 86400 + h * 3600) for k in (0, 1, 2, 7, 30) for h in (3, 12, 21)] + \
@@ -624,7 +662,7 @@ def gen_trash_world(rng, cmd, profile="mixed", real_clock=None):
             tname = nm + rng.choice([b"", b"", b"_1", b"_2"])
             if tdir + b"/info/" + tname + b".trashinfo" in w.nodes:
                 continue
-            date = rng.choice(age_dates if real_clock else DATES)
+            date = rng.choice(age_dates if real_clock else (dst_dates if dst_world else DATES))
             rec = add_good(rng, w, tdir, base, tname, loc, date, sentinel, kinds)
             entries.append({"tdir": tdir, "name": tname, "loc": loc, "rec": rec, "date": date, "base": base})
             if rng.random() < 0.12:
@@ -700,12 +738,32 @@ def gen_trash_world(rng, cmd, profile="mixed", real_clock=None):
         elif r < 0.22:
             w.link(e["loc"], rng.choice([b"nowhere", sentinel]))
             e["dest"] = "link"
+        elif r < 0.27 and cmd == "restore":
+            # what stands at the original location is the trashed file itself under another name: a hard link of the
+            # payload, or a symbolic link to it (same inode: rename(2) between two such names does nothing and says OK)
+            pay = e["tdir"] + b"/files/" + e["name"]
+            pn = w.nodes.get(pay)
+            if pn is not None and pn["k"] == "f" and not pn.get("special") and b"\n" not in e["loc"] and e["loc"] not in w.nodes:
+                if rng.random() < 0.6:
+                    w.file(e["loc"], pn.get("data", b""), pn.get("mode", 0o644))
+                    if e["loc"] in w.nodes:
+                        w.nodes[e["loc"]].update(mtime=pn.get("mtime"), hardlink=pay)
+                        e["dest"] = "hardlink-of-payload"
+                else:
+                    w.link(e["loc"], pay)
+                    if e["loc"] in w.nodes:
+                        e["dest"] = "link-to-payload"
         elif r < 0.6:
             w.dir(os.path.dirname(e["loc"]))
     cwd = rng.choice([R, home, R + b"/w"] + [v for v in vols] + [os.path.dirname(e["loc"]) for e in entries[:3]])
     if cwd not in w.nodes or w.nodes[cwd]["k"] != "d":
         w.dir(cwd)
     opts, args, stdin = {}, [], None
+    if cmd == "restore" and rng.random() < 0.15 and R + b"/lnk-cwd" not in w.nodes and cwd != R:
+        # the shell's idea of the current directory ($PWD) spells it through a symbolic link; trash-restore asks the
+        # kernel where it is, as trash-put did when it recorded the locations
+        w.link(R + b"/lnk-cwd", cwd)
+        env["PWD"] = R + b"/lnk-cwd"
     if cmd == "list":
         if custom and rng.random() < 0.7:
             opts["userDirs"] = [custom_spelling or custom] + ([tdirs[0][0]] if rng.random() < 0.3 else [])
@@ -749,11 +807,20 @@ def gen_trash_world(rng, cmd, profile="mixed", real_clock=None):
             opts["interactive"] = True
             if rng.random() < 0.4:
                 opts["ttyDefault"] = True       # no -i on the command line: stdin is a terminal
-            stdin = None if rng.random() < 0.1 else rng.choice([b"y", b"Y", b"yes", b"n", b"", b"N", b" y", b"x", b"Yes please"]) + b"\n"
+            stdin = None if rng.random() < 0.1 else rng.choice([b"y", b"Y", b"yes", b"n", b"", b"N", b" y", b"x", b"Yes please", "\uff59".encode(), "\uff39es".encode(),
+                                                              "\u02b8".encode(), "\u24e8".encode(), "\u00fd".encode(), b"\xff"]) + b"\n"
         elif rng.random() < 0.3:
             opts["ttyDefault"] = True           # neither -i nor -f and stdin is not a terminal: no question
         if custom and rng.random() < 0.6:
             opts["userDirs"] = [custom_spelling or custom]
+        if dst_world and not real_clock:
+            env["TZ"] = rng.choice([b"CET-1CEST,M3.5.0,M10.5.0/3", b"EST5EDT,M3.2.0,M11.1.0", b"CET-1CEST,M3.5.0,M10.5.0/3"])
+            now = rng.choice(["2024-11-01T12:00:00", "2024-04-01T12:00:00", "2024-11-05T01:30:00", "2024-03-12T12:00:00"])
+            env["TRASH_DATE"] = now.encode()
+            y, mo, d = map(int, now[:10].split("-"))
+            H, M, S = map(int, now[11:].split(":"))
+            opts["now"] = [y, mo, d, H, M, S]
+            opts["days"] = 7
         if real_clock:
             del env["TRASH_DATE"]
             off = rng.choice([9, -8, 12, -11, 0])
@@ -770,10 +837,10 @@ def gen_trash_world(rng, cmd, profile="mixed", real_clock=None):
                 opts["flags"] = rng.choice([[b"-i", b"-f"], [b"-if"], [b"--interactive", b"-f"], [b"-f", b"-i", b"-f"]])
     elif cmd == "rm":
         pats = [b"*", b"foo", b"foo*", b"*.o", b"F*", b"?oo", b"[fF]oo", b"/SBX/*", b"*/w/*", b"nomatch", b"a b", b"caf*", b"[!f]*", b"*\n*", b"d1",
-                b"*.txt", b"*r", b"*s", b"*[!o]"]
+                b"*.txt", b"*r", b"*s", b"*[!o]", b"foo/", b"*/", b"d1//", b"~", b"~root", b"~/foo", b"~*"]
         if entries:
             e = rng.choice(entries)
-            pats += [os.path.basename(e["loc"]), e["loc"], os.path.dirname(e["loc"]) + b"/*"]
+            pats += [os.path.basename(e["loc"]), e["loc"], os.path.dirname(e["loc"]) + b"/*", e["loc"] + b"/", os.path.basename(e["loc"]) + b"/"]
         if nf_pair and rng.random() < 0.8:
             e = rng.choice(nf_pair)
             pats = [os.path.basename(e["loc"]), e["loc"], os.path.dirname(e["loc"]) + b"/*", b"caf\xc3\xa9*", b"*/r\xc3\xa9sum\xc3\xa9/*"]
